@@ -4,6 +4,8 @@ package main
 
 import (
 	"fmt"
+	"io"
+	"log/slog"
 	"os"
 	"runtime"
 	"strings"
@@ -19,6 +21,7 @@ import (
 // VIOLATION. This pass is dynamic detection, not enumeration: it exists because the cooperative executions
 // of the exploration hide data races from the detector by construction.
 func raceMain(iters int) int {
+	slog.SetDefault(slog.New(slog.NewTextHandler(io.Discard, &slog.HandlerOptions{Level: slog.LevelError + 8})))
 	e, err := newEnv(false)
 	if err != nil {
 		fmt.Fprintf(os.Stderr, "HARNESS-ERROR race pass set-up: %v\n", err)
